@@ -340,9 +340,10 @@ func c05Parse(r *vf.Run, id string, s fspec) {
 // c05Write builds the frame through the public API, writes it, and lets x/net read it back.
 func c05Write(r *vf.Run, id string, s fspec) {
 	replay := map[string]any{"spec": s.String()}
-	var out bytes.Buffer
+	var out, out2, out3 bytes.Buffer
 	var trig []string
 	ok := true
+	third := s
 	r.Guard("C05.write-panic", id, nil, replay, func() {
 		fr := http2.AcquireFrameHeader()
 		defer http2.ReleaseFrameHeader(fr)
@@ -426,10 +427,68 @@ func c05Write(r *vf.Run, id string, s fspec) {
 			return
 		}
 		bw.Flush()
+		// the same frame value written a second time, and a third time after its boolean fields were changed through the
+		// same setters: what is written is what the value says at that moment, not what an earlier write left behind
+		if s.Type == wire.TPushPromise || s.ExtraFlags != 0 {
+			return
+		}
+		bw2 := bufio.NewWriterSize(&out2, 1<<16)
+		if _, err := fr.WriteTo(bw2); err == nil {
+			bw2.Flush()
+		}
+		switch body := fr.Body().(type) {
+		case *http2.Data:
+			body.SetEndStream(!s.EndStream)
+			third.EndStream = !s.EndStream
+		case *http2.Headers:
+			body.SetEndStream(!s.EndStream)
+			body.SetEndHeaders(!s.EndHeaders)
+			third.EndStream, third.EndHeaders = !s.EndStream, !s.EndHeaders
+		case *http2.Continuation:
+			body.SetEndHeaders(!s.EndHeaders)
+			third.EndHeaders = !s.EndHeaders
+		case *http2.Ping:
+			body.SetAck(!s.Ack)
+			third.Ack = !s.Ack
+		default:
+			return
+		}
+		bw3 := bufio.NewWriterSize(&out3, 1<<16)
+		if _, err := fr.WriteTo(bw3); err == nil {
+			bw3.Flush()
+		}
 	})
+	rewritten := func(which string, b2 []byte, want fspec) {
+		if len(b2) == 0 {
+			return
+		}
+		fr := xh2.NewFramer(io.Discard, bytes.NewReader(b2))
+		fr.AllowIllegalReads = true
+		fr.SetMaxReadFrameSize(1<<24 - 1)
+		f, err := fr.ReadFrame()
+		if err != nil {
+			r.Fail("C05.rewrite-malformed", id, fmt.Sprintf("%s: %s: an independent parser rejects the bytes (%x…): %v", s, which, b2[:min(len(b2), 32)], err), []string{"frame.valueWrittenMoreThanOnce"}, replay)
+			return
+		}
+		want.PadLen = 0
+		if err := xnetCompare(want, f); err != nil {
+			r.Fail("C05.rewrite-mismatch", id, fmt.Sprintf("%s: %s reads back as %v", s, which, err), []string{"frame.valueWrittenMoreThanOnce"}, replay)
+			return
+		}
+		if 9+(int(b2[0])<<16|int(b2[1])<<8|int(b2[2])) != len(b2) {
+			r.Fail("C05.rewrite-malformed", id, fmt.Sprintf("%s: %s: length field does not match the %d bytes written", s, which, len(b2)), []string{"frame.valueWrittenMoreThanOnce"}, replay)
+		}
+		r.Inc("frames_written_more_than_once", 1)
+	}
 	b := out.Bytes()
 	if !ok || len(b) == 0 {
 		return
+	}
+	if s.Type != wire.TSettings {
+		defer func() {
+			rewritten("the same value written a second time", out2.Bytes(), s)
+			rewritten("written again after its END_STREAM / END_HEADERS / ACK fields were changed through the setters", out3.Bytes(), third)
+		}()
 	}
 	// raw layout
 	if len(b) < 9 {
